@@ -15,7 +15,9 @@ from hypothesis import strategies as st
 # ------------------------------------------------------------------ layout
 SP = [' ', '\n', '  ', '\n  ', ' \n', ' %HID\n', ' %HID\n   ', '\t', ' ', '\n', '\n%HID\n', ' \n %HID\n  ']
 GLUE = ['%HID\n', '%HID\n  ', '']
-PARA = ['\n\n', '\n  \n', '\n\n\n', ' \n\n  ', '\n%HID\n\n', '\n\n%HID\n']
+PARA = ['\n\n', '\n  \n', '\n\n\n', ' \n\n  ', '\n%HID\n\n', '\n\n%HID\n',
+        # a comment followed by a line that is blank but not empty (seeded change C05-A)
+        ' %HID\n  \n', '\n%HID\n\t\n', '\n  %HID\n \n  ']
 INNER = ['', '', '', ' ', '\n', '\n  ']
 
 sep_space = st.sampled_from(SP)
@@ -570,6 +572,8 @@ def render_item(m, it):
         sub = Model(m.flags)
         sub.wcount = m.wcount
         sub.no_skip = True
+        # the region is parsed by LaTeX itself and by the filter under --unkn: no self-calling definition in it either
+        sub.in_store = m.in_store
         render_flow(sub, it[1], first_sep=False)
         m.wcount = sub.wcount
         txt = sub.source()
